@@ -85,10 +85,14 @@ pub fn hub_requests(c: &Chain, u: &str) -> Vec<(u64, u128, u128)> {
     let r: UnbondRequestsResponse = c.query(HUB, &HubQ::UnbondRequests { address: u.into() }).expect("requests");
     r.requests.into_iter().map(|(b, x, y)| (b, x.u128(), y.u128())).collect()
 }
+/// the registered validators, read from the registry's own storage map (the GetValidatorsForDelegation query is an
+/// input of the delegation plan and therefore under test itself)
 pub fn registry_list(c: &Chain) -> Vec<String> {
-    let v: Vec<basset_sei_validators_registry::registry::ValidatorResponse> =
-        c.query(REG, &basset_sei_validators_registry::msg::QueryMsg::GetValidatorsForDelegation {}).expect("registry");
-    let mut r: Vec<String> = v.into_iter().map(|x| x.address).collect();
+    let store = &c.contracts.get(REG).expect("registry contract").1;
+    let mut r: Vec<String> = basset_sei_validators_registry::registry::REGISTRY
+        .range(store, None, None, cosmwasm_std::Order::Ascending)
+        .map(|x| x.expect("registry entry").1.address)
+        .collect();
     r.sort();
     r
 }
